@@ -9,7 +9,7 @@ import (
 
 var (
 	// a commit header, from its first character: [hash] author date subject (a log taken with a quoted format starts with "format:)
-	header            = `^(?:"format:)?\[([\da-f]{5,40})\]\s(.*?)\s(\d{4}-\d{2}-\d{2})(?:\s(.*))?$`
+	header            = `^(?:"format:)?\[([\da-f]{5,40})\]\s(.*?)\s(\d{4,}-\d{2}-\d{2})(?:\s(.*))?$`
 	changes           = `^([\d-]+)[\t\s]+([\d-]+)(?:\t|\s+)(.*)`
 	complexMoveRegStr = `^((?:.*/)?)\{(.*)\s=>\s(.*?)\}((?:/.*)?)$`
 	basicMoveRegStr   = `(.*)\s=>\s(.*)`
